@@ -264,6 +264,13 @@ MatchSpecs == {SpecOf("Aligned", FALSE, [cpu |-> 2], <<>>, <<>>, ow, FALSE) :
                    ow \in {<<Own("a", "", "")>>, <<Own("", "p2", "")>>, <<Own("b", "", "rs1")>>, <<>>}}
               \cup {SpecOf("Aligned", FALSE, [cpu |-> 2], <<>>, <<>>, Anyone, TRUE),
                     SpecOf("Aligned", TRUE, [cpu |-> 2], <<>>, <<>>, <<Own("a", "", ""), Own("", "p2", "")>>, FALSE)}
+MatchSpecsQ == {SpecOf("Aligned", FALSE, [cpu |-> 2], <<>>, <<>>, ow, FALSE) : ow \in {<<Own("a", "", "")>>, <<Own("b", "", "rs1")>>, <<>>}}
+               \cup {SpecOf("Aligned", TRUE, [cpu |-> 2], <<>>, <<>>, <<Own("a", "", ""), Own("", "p2", "")>>, FALSE)}
+\* simulation: everything together, plus inner-reserved amounts and pod slots
+SimSpecs == LedgerSpecs \cup IndexSpecs \cup MatchSpecs
+            \cup {SpecOf("Restricted", once, [cpu |-> 3, memory |-> 1, pods |-> 2], ro, [cpu |-> 1], Anyone, FALSE) :
+                      once \in BOOLEAN, ro \in {<<>>, <<"memory">>}}
+ReqsS == {[cpu |-> 1, memory |-> 1], [cpu |-> 2], [memory |-> 3], [cpu |-> 0]}
 PA2 == [p1 |-> [ns |-> "ns1", app |-> "a", ctrl |-> ""], p2 |-> [ns |-> "ns2", app |-> "b", ctrl |-> "rs1"]]
 PA3 == [p1 |-> [ns |-> "ns1", app |-> "a", ctrl |-> ""], p2 |-> [ns |-> "ns2", app |-> "b", ctrl |-> "rs1"],
         p3 |-> [ns |-> "ns1", app |-> "a", ctrl |-> "rs1"]]
@@ -297,6 +304,9 @@ Battery == LET noms == {[op |-> "nominate", aff |-> AffStr(a), node |-> n] @@ QF
                fits == {[op |-> "fit", r |-> u, pre |-> pre] @@ [QFields(p) EXCEPT !.req = rq] :
                             u \in Uids, p \in {CHOOSE x \in Pods : TRUE}, rq \in Reqs, pre \in {<<>>} \cup Reqs}
            IN SetToSeq(noms) \o SetToSeq(fits)
-GenPrint == PrintT(ToJson(hist \o Battery))
-GenPrintEnd == Len(hist) >= K => GenPrint
+\* BFS (VIEW MCView, CONSTRAINT GenBound): one witness per distinct model state within the bound - states beyond the
+\* bound are not in the model and would be reported once per PATH, so they are not printed
+GenPrint == Len(hist) <= K => PrintT(ToJson(hist \o Battery))
+\* simulation: print complete histories only
+GenPrintEnd == Len(hist) \in {K, K + 1} => PrintT(ToJson(hist \o Battery))
 =============================================================================
